@@ -52,11 +52,18 @@ def run(P, C, tier):
     rollbacks = []
     pragma = []
     writes = []
-    for bi, t in b.live_calls():
+    via_closure = {}
+    for bi, t, ob, obi in b.calls_incl_closures():
         name = callee_name(t)
-        args = b.call_args(bi)
-        uses_conn = any(b.root_type(a).endswith("rusqlite::Connection") and a[0] != "field" for a in args)
+        args = ob.call_args(obi)
+        uses_conn = any(ob.type_of_root(a).endswith("rusqlite::Connection") and a[0] != "field" for a in args)
         if not uses_conn:
+            continue
+        if ob is not b:
+            # a write made inside a closure handed to an iterator driver (`try_for_each(|x| x.write(conn))`): the driver call is the write
+            if bi not in via_closure:
+                via_closure[bi] = name
+                writes.append((bi, b.blocks[bi]["t"]))
             continue
         if re.search(r"Connection::(is_autocommit|changes|last_insert_rowid|total_changes)$", name):
             continue        # pure state queries of the connection: neither a write nor fallible
